@@ -79,7 +79,13 @@ def holdsC03 (c : Info) (t : List Ev) : Bool :=
   && (match t.find? (fun e => match e with | .mainReturn _ => true | _ => false), lastGate t with
       | some (.mainReturn r), some g =>
         let gatePassed := t.contains (.poll g true)
-        if r != .nil && !gatePassed then (List.range c.n).all fun j => j ≤ g || !(t.contains (.runInvoke j)) else true
+        -- (claimed when nothing else — cancellation, Shutdown(), a signal, a trigger — interferes:
+        --  with the context cancelled the loop legitimately runs on, see clause (a))
+        let interference := t.any fun e => match e with
+          | .sigSent .int | .sigSent .term | .parentCancel | .triggerSent _ | .userCall _ => true
+          | _ => false
+        if r != .nil && !gatePassed && !interference
+        then (List.range c.n).all fun j => j ≤ g || !(t.contains (.runInvoke j)) else true
       | _, _ => true)
 
 /-! ## C04 -/
